@@ -232,7 +232,9 @@ def r10b(ctx):
     outer = next((s for s in f.node.body if isinstance(s, ast.If)), None)
     if outer is None:
         raise Inconclusive("ListNode.edits: no isinstance dispatch")
-    chain = outer.body
+    # the whole body is evaluated with `isinstance(<other>, ListNode)` known to hold, so nested-if and guard-clause forms
+    # of the dispatch are treated alike
+    chain = [s_ for s_ in f.node.body if not (isinstance(s_, ast.Expr) and isinstance(s_.value, ast.Constant))]
 
     def decide(env):
         def run(stmts):
@@ -269,6 +271,7 @@ def r10b(ctx):
         env = {"self.allow_list_edits": allow, "self.allow_list_edits_when_same_length": same,
                "self._children": ("A", a), f"{other}._children": ("B", b),
                "len(self._children)": a, f"len({other}._children)": b, "len(self)": a, f"len({other})": b,
+               f"isinstance({other}, ListNode)": True, f"isinstance({other},ListNode)": True,
                "__methods__": {k: v[1].node for k, v in m.attrs[q].items() if v[0] == "def"}}
         try:
             got = decide(env)
